@@ -535,6 +535,20 @@ def in_support(cname, vals, tag, v):
     return True     # DistNormal: any real number
 
 
+def outside_by_rounding(cname, vals, v):
+    """A bounded continuous draw that misses its interval by a few units in the last place."""
+    if type(v) is not float or v != v:
+        return False
+    bounds = {"DistUniform": (0, 1), "DistTriangular": (0, 2), "DistNormalTrunc": (2, 3)}.get(cname)
+    if bounds is None:
+        return False
+    lo, hi = float(vals[bounds[0]]), float(vals[bounds[1]])
+    if not (math.isfinite(lo) and math.isfinite(hi)):
+        return False
+    excess = lo - v if v < lo else v - hi
+    return 0 < excess <= 1e-13 * max(abs(lo), abs(hi), hi - lo)
+
+
 def extreme_params(vals):
     """A parameter of a magnitude at which intermediate results leave the double range."""
     for v in vals:
@@ -695,6 +709,7 @@ def oracle(case, res):
             if not in_support(cname, vals, out[1], v):
                 ext = extreme_params([float(x) for x in vals if is_num(x)])
                 sig = (f"draw-outside-support-for-extreme-parameter:{cname}" if ext
+                       else f"draw-outside-support-by-rounding:{cname}" if outside_by_rounding(cname, vals, v)
                        else f"draw-outside-support:{cname}")
                 findings.append((sig, f"{cname}{tuple(vals)}.draw() = {v!r} ({out[1]}) is outside the documented support; consumed {[u.hex() for u in used]}", k))
         else:
